@@ -76,4 +76,41 @@ theorem cipher_step_tab (T1 T2 : List Int) (k1 k2 : Nat → Nat) (j1 j2 b d e : 
       = (((((b + 256 - d) % 256 ^^^ k1 j1) ^^^ k2 j2) + e) % 256 : Nat) := by
   rw [h1, h2]; exact cipher_step b d e _ _ hd h1' h2'
 
+/-! ### lemmas for the byte-level code of `numbers.Integer` and for divmod chains on naturals -/
+
+theorem fdiv_natCast (a b : Nat) : Int.fdiv (a : Int) (b : Int) = ((a / b : Nat) : Int) := by
+  rw [Int.fdiv_eq_ediv_of_nonneg _ (Int.natCast_nonneg b)]; exact (Int.natCast_ediv a b).symm
+
+theorem land_natCast (m k : Nat) : PyInt.land (m : Int) (k : Int) = ((m &&& k : Nat) : Int) := rfl
+theorem xor_natCast (m k : Nat) : PyInt.xor (m : Int) (k : Int) = ((m ^^^ k : Nat) : Int) := rfl
+
+/-- `x & 0xff` of a non-negative int -/
+theorem land_255 (x : Int) (h : 0 ≤ x) : PyInt.land x 255 = x % 256 := by
+  obtain ⟨m, rfl⟩ := Int.eq_ofNat_of_zero_le h
+  have h2 : m &&& 255 = m % 256 := Nat.and_two_pow_sub_one_eq_mod m 8
+  show ((m &&& 255 : Nat) : Int) = _
+  rw [h2]; omega
+
+/-- `x & 0x7f` of a non-negative int -/
+theorem land_127 (x : Int) (h : 0 ≤ x) : PyInt.land x 127 = x % 128 := by
+  obtain ⟨m, rfl⟩ := Int.eq_ofNat_of_zero_le h
+  have h2 : m &&& 127 = m % 128 := Nat.and_two_pow_sub_one_eq_mod m 7
+  show ((m &&& 127 : Nat) : Int) = _
+  rw [h2]; omega
+
+theorem and_128_byte : ∀ a < 256, a &&& 128 = if a ≥ 128 then 128 else 0 := by decide +kernel
+
+/-- `b & 0x80` of a byte -/
+theorem land_128 (x : Int) (h : 0 ≤ x) (h' : x < 256) : PyInt.land x 128 = if x ≥ 128 then 128 else 0 := by
+  obtain ⟨m, rfl⟩ := Int.eq_ofNat_of_zero_le h
+  show ((m &&& 128 : Nat) : Int) = _
+  rw [and_128_byte m (by omega)]
+  split <;> split <;> omega
+
+/-- `b ^ 0xff` of a byte -/
+theorem xor_255 (x : Int) (h : 0 ≤ x) (h' : x < 256) : PyInt.xor x 255 = 255 - x := by
+  obtain ⟨m, rfl⟩ := Int.eq_ofNat_of_zero_le h
+  show ((m ^^^ 255 : Nat) : Int) = _
+  rw [Nat.xor_comm, ← compl_byte m (by omega)]; omega
+
 end PcbV.PyIntLemmas
